@@ -243,7 +243,7 @@ def progress_rule(ctx, rid):
         raise AnalysisError("idiom changed: grow_missing does not call Crop.grow")
     else:
         rr.bad(ctx.finding(rid, gm, gm.node, "grow_missing does not pass exactly self.missing_results() to grow", construct="grow-missing-arg"), "grow_missing")
-    okg = False
+    okg = None
     for n, c, nm in all_calls(ctx, gr):
         if nm == "xyzpy.gen.combo_runner.combo_runner_core":
             fnarg = arg(c, 0, "fn")
@@ -258,13 +258,27 @@ def progress_rule(ctx, rid):
                             cb = d_[1]
                         else:
                             cs = d_[1]
-            if fnarg is not None and norm(fnarg) == "grow" and cb is not None and isinstance(cb, ast.Tuple) and len(cb.elts) == 1 and isinstance(cb.elts[0], ast.Tuple) and len(cb.elts[0].elts) == 2 and isinstance(cb.elts[0].elts[0], ast.Constant) \
-                    and cb.elts[0].elts[0].value == "batch_number" and "batch_ids" in names_in(cb.elts[0].elts[1]) and cs is not None and "'crop': self" in norm(cs):
+            def _derives(e, depth=0):
+                if "batch_ids" in names_in(e):
+                    return True
+                if depth < 3:
+                    from ..util import assignments_to as _at
+                    return any(v_ is not None and _derives(v_, depth + 1) for nm2 in names_in(e) for _, v_ in _at(gr, nm2))
+                return False
+            shape_ok = fnarg is not None and norm(fnarg) == "grow" and cb is not None and isinstance(cb, ast.Tuple) and len(cb.elts) == 1 and isinstance(cb.elts[0], ast.Tuple) and len(cb.elts[0].elts) == 2 \
+                and isinstance(cb.elts[0].elts[0], ast.Constant) and cb.elts[0].elts[0].value == "batch_number" and cs is not None and "'crop': self" in norm(cs).replace('"', "'")
+            if shape_ok and _derives(cb.elts[0].elts[1]):
                 okg = True
+            elif shape_ok:
+                okg = False
+            else:
+                okg = None
     if okg:
         rr.ok("Crop.grow sweeps grow(batch_number) over exactly batch_ids with crop=self")
-    else:
+    elif okg is False:
         rr.bad(ctx.finding(rid, gr, gr.node, "Crop.grow no longer sweeps the module-level grow over ('batch_number', batch_ids) with crop=self", construct="crop-grow-binding"), "Crop.grow binding")
+    else:
+        raise AnalysisError("idiom changed: how Crop.grow hands the batch ids and itself to the enumerator")
     return rr
 
 
